@@ -12,7 +12,8 @@ class Ctx:
         from .inline import absorb_kernel_helpers
         absorbed, new = absorb_kernel_helpers(
             self.F, lambda b: _k.kernel_params(self.F, b) is not None or
-            (b.get('impl_self_q', '').endswith('::node::Node') and not b.get('impl_trait') and b.get('name') in ('connect', 'try_connect', 'disconnect', 'isolate')))
+            (b.get('impl_self_q', '').endswith('::node::Node') and not b.get('impl_trait') and b.get('name') in ('connect', 'try_connect', 'disconnect', 'isolate')) or
+            (b.get('impl_trait') in ('serde::de::Visitor', 'serde::Deserialize')))
         self.F.absorbed = absorbed
         self.F.bodies.update(new)
         self.tier = tier
